@@ -265,7 +265,9 @@ func (s *sim) setup() {
 			ps.Pre = lo
 		}
 	}
-	ps.Cert = ps.Pre
+	// the certificate threshold is independent of the precommit threshold and must play no role
+	// in finality: draw it anywhere in its legal range [W/3+1, W]
+	ps.Cert = total/3 + 1 + uint64(r.Int63n(int64(total-(total/3+1))+1))
 	res.Initial = ps
 	s.cur = ps
 	res.Batch = n + r.Intn(3)
